@@ -47,7 +47,8 @@ impl Mutex {
     }
 
     pub(crate) fn try_acquire_lock(&self, location: Location) -> bool {
-        self.state.branch_opaque(location);
+        self.state
+            .branch_nonblocking(object::Action::Opaque, location);
         self.post_acquire()
     }
 
@@ -119,7 +120,7 @@ impl Mutex {
                 }
 
                 if let Some(operation) = thread.operation.as_ref() {
-                    if operation.object() == self.state.erase() {
+                    if operation.object() == self.state.erase() && !operation.is_nonblocking() {
                         let location = operation.location();
                         trace!(state = ?self.state, thread = ?id,
                             "Mutex::post_acquire");
